@@ -1,7 +1,7 @@
 (* C53 - the shard of an object is chosen once: identity token and primary key never change afterwards *)
 From Coq Require Import List ZArith NArith Bool Lia.
 Import ListNotations.
-From SAV.orm Require Import Shard ShardDb ShardInv ShardFlush ShardLoad ShardOps.
+From SAV.orm Require Import Shard ShardDb ShardInv ShardFlush ShardLoad ShardOps ShardDelete.
 Open Scope Z_scope.
 
 Definition keep (i i' : inst) : Prop :=
@@ -63,6 +63,31 @@ Section Sticky.
     eapply ext_trans; [eapply flush_ext; eauto|]. rewrite Hx. apply ext_app.
   Qed.
 
+  Lemma delete_all_ext : forall os st st', delete_all st os = Ok st' -> ext (insts st) (insts st').
+  Proof.
+    induction os as [|o os IH]; simpl; intros st st' H.
+    - injection H as <-. apply ext_refl.
+    - destruct (delete_one st o) as [s1|] eqn:E; [|discriminate].
+      destruct (delete_one_spec _ _ _ E) as [i0 [t [En [_ [_ [Hi _]]]]]].
+      eapply ext_trans; [|eapply IH; eauto]. rewrite Hi.
+      eapply ext_upd_nth; eauto. unfold keep. simpl. intros _. repeat split; auto. discriminate.
+  Qed.
+
+  Lemma get_ext : forall st k t st' ro, Inv (insts st) (db st) -> do_get sc ic ec st k t = Ok (st', ro) ->
+    ext (insts st) (insts st').
+  Proof.
+    intros st k t st' ro HI E.
+    destruct (do_get_cases _ _ _ _ _ _ _ _ E) as [[-> _]|[os [Eq _]]]; [apply ext_refl | eapply query_ext; eauto].
+  Qed.
+
+  Lemma set_ext : forall st o g v st', do_set st o g v = Ok st' -> ext (insts st) (insts st').
+  Proof.
+    intros st o g v st' H. unfold do_set in H. destruct (nth_error (insts st) o) as [i0|] eqn:En; [|discriminate].
+    assert (ext (insts st) (upd_nth o (fun i => mkInst (mkRow (r_pk (i_cur i)) g v) (i_old i) (i_life i) (i_tok i)) (insts st)))
+      by (eapply ext_upd_nth; eauto; unfold keep; simpl; auto).
+    destruct (i_life i0); try discriminate; injection H as <-; simpl; auto.
+  Qed.
+
   Lemma step_ext : forall st o st' r, Inv (insts st) (db st) -> step sc ic ec st o = Ok (st', r) ->
     ext (insts st) (insts st').
   Proof.
@@ -75,12 +100,10 @@ Section Sticky.
     - destruct (flush sc st) as [s|] eqn:E; [|discriminate]. injection H as <- <-. eapply flush_ext; eauto.
     - unfold do_commit in H. destruct (flush sc st) as [s|] eqn:E; [|discriminate]. injection H as <- <-. simpl.
       eapply flush_ext; eauto.
-    - unfold do_delete in H. destruct (nth_error (insts st) o) as [i0|] eqn:En; [|discriminate].
-      destruct (i_life i0) eqn:El; try discriminate. destruct (i_tok i0) as [t|] eqn:Et; [|discriminate].
-      destruct (flush sc st) as [st1|] eqn:Ef; [|discriminate]. injection H as <- <-. simpl.
-      eapply ext_trans; [eapply flush_ext; eauto|].
-      destruct (Forall2_nth _ _ _ _ _ (flush_frel _ _ _ Ef) En) as [i1 [En1 _]].
-      eapply ext_upd_nth; eauto. unfold keep. simpl. intros _. repeat split; auto. discriminate.
+    - unfold do_delete in H. destruct (forallb (valid_del st) os); [|discriminate].
+      destruct (flush sc st) as [st1|] eqn:Ef; [|discriminate].
+      destruct (delete_all st1 (dedup os)) as [s2|] eqn:Ed; [|discriminate]. injection H as <- <-.
+      eapply ext_trans; [eapply flush_ext; eauto | eapply delete_all_ext; eauto].
     - destruct (do_query sc ec st q tgt) as [[s os]|] eqn:E; [|discriminate]. injection H as <- <-.
       eapply query_ext; eauto.
     - destruct (do_get sc ic ec st k t) as [[s ro]|] eqn:E; [|discriminate]. injection H as <- <-.
@@ -98,6 +121,15 @@ Section Sticky.
       destruct (Forall2_nth _ _ _ _ _ (flush_frel _ _ _ Ef) En0) as [i1 [En1 Hr]].
       unfold frel in Hr. simpl in Hr. rewrite El in Hr. destruct Hr as [L1 [T1 C1]].
       eapply ext_upd_nth; eauto. unfold keep. simpl. intros ?. repeat split; auto. congruence.
+    - unfold do_merge in H. destruct (flush sc st) as [st1|] eqn:Ef; [|discriminate].
+      pose proof (flush_inv _ _ _ Ef HI) as HI1.
+      destruct (do_get sc ic ec st1 (r_pk r0) (Some t)) as [[st2 ro]|] eqn:Eg; [|discriminate].
+      pose proof (get_ext _ _ _ _ _ HI1 Eg) as He2.
+      destruct ro as [o|].
+      + destruct (do_set st2 o (r_grp r0) (r_val r0)) as [st3|] eqn:Es; [|discriminate]. injection H as <- <-.
+        eapply ext_trans; [eapply flush_ext; eauto|]. eapply ext_trans; [exact He2 | eapply set_ext; eauto].
+      + injection H as <- <-. simpl.
+        eapply ext_trans; [eapply flush_ext; eauto|]. eapply ext_trans; [exact He2 | apply ext_app].
   Qed.
 
   Lemma run_ext : forall d0 ops st st', Good d0 st -> run sc ic ec st ops = Ok st' -> ext (insts st) (insts st').
